@@ -144,6 +144,9 @@ def generate(rng, tier):
         # to the instance must not depend on the strategy
         plan["psetter"] = True
         keys += [["kz", rng.choice([2, "3"])], ["tot", rng.choice([4, "5"])]]
+    if keys and rng.random() < 0.05:
+        # an item whose value is the library's own marker for "not provided" (it is exported): it means just that
+        keys[rng.randrange(len(keys))][1] = {"$unprovided": 1}
     rng.shuffle(keys)
     plan["input"] = keys
     if kind in ("schema", "dataclass") and rng.random() < 0.15:
@@ -347,6 +350,9 @@ def _run(plan, dfs, collect):
     kw = {}
     for k, v in plan["input"]:
         kw[k] = tdsl.build_value(v)
+        if isinstance(v, dict) and "$unprovided" in v:
+            import utype
+            kw[k] = utype.unprovided
     pos = []
     if plan["kind"] == "func" and plan["positional"]:
         order = [f for f in plan["fields"] if f["required"]] + [f for f in plan["fields"] if not f["required"]]
